@@ -460,4 +460,58 @@ Example T02k_undefine_example :
           [SPass; SLoop (HWhile (Unknown 1 [1])) [SAssign 0 (RVar 1); SAssign 1 (RTest (Unknown 2 [0]))] []] = true.
 Proof. reflexivity. Qed.
 
+
+(* T02k.5  object_oriented.remove_unused_self_cls (after repairs 8b785d2, ba39c5e, 9171c40, bfe9205): the
+   model of the rule -- five passes of rs_pass, as processing.fix runs it -- leaves the run of the module
+   unchanged for every fuel: same trace (events, uses of the first parameter with the object it is bound
+   to), same outcome (exception class).  wf_mod: no class-body alias has the name of a method; no_dyn: no
+   getattr(x, "name") (known finding F02-28). *)
+Theorem T02k_self_cls_sound :
+  forall M, wf_mod M = true -> no_dyn M = true ->
+  forall fuel, run_module fuel (rs_model M) = run_module fuel M.
+Proof. exact self_cls_sound. Qed.
+Print Assumptions T02k_self_cls_sound.
+
+Theorem T02k_self_cls_dynamic_refuted :
+  exists M, wf_mod M = true /\ no_dyn M = false /\ run_module 9 (rs_model M) <> run_module 9 M
+            /\ snd (run_module 9 M) = OOk.
+Proof. exact self_cls_dynamic_refuted. Qed.
+Print Assumptions T02k_self_cls_dynamic_refuted.
+
+(* the code before repair ba39c5e (no "looked up on a class" guard): C.m(x) with an explicit instance *)
+Theorem T02k_self_cls_unguarded_refuted :
+  exists M, wf_mod M = true /\ no_dyn M = true /\ run_module 9 (rs_pass_unguarded M) <> run_module 9 M
+            /\ snd (run_module 9 M) = OOk.
+Proof. exact self_cls_unguarded_refuted. Qed.
+Print Assumptions T02k_self_cls_unguarded_refuted.
+
+Example T02k_self_cls_example :
+  let M := mkMod [IClass (mkCls 1 None [mkMeth 1 KPlain 1 [AEv 1]; mkMeth 2 KPlain 1 [ACall RSelf 1 0]] []);
+                  IClass (mkCls 2 (Some 1) [mkMeth 3 KPlain 1 [AUse; ACall RSuper 2 0]] [])] [] []
+                 [ACall (RNew 2) 3 0] in
+  wf_mod M = true /\ no_dyn M = true /\ rs_model M <> M /\ run_module 20 M = ([TUse (SInst 2); TEv 1], OOk).
+Proof. repeat split; try reflexivity. vm_compute. discriminate. Qed.
+
+(* T02k.6  object_oriented.fix_unconventional_class_definitions (after repair 919078b): for a class that
+   nothing observes while it is created, the output runs like the input: same outcome, log and class
+   attributes.  Hook (decorator / __init_subclass__ / metaclass): refuted, finding F02cls-2. *)
+Theorem T02k_unconventional_sound :
+  forall p, u_hook p = false -> urun (fu_model p) = urun p.
+Proof. exact unconventional_sound. Qed.
+Print Assumptions T02k_unconventional_sound.
+
+Theorem T02k_unconventional_hook_refuted :
+  exists p, u_hook p = true /\ urun (fu_model p) <> urun p.
+Proof. exact unconventional_hook_refuted. Qed.
+Print Assumptions T02k_unconventional_hook_refuted.
+
+(* the code before the repair moved every assignment *)
+Theorem T02k_unconventional_unguarded_refuted :
+  (exists p, u_hook p = false /\ urun (fu_unguarded p) <> urun p /\ fst (fst (urun p)) = true
+             /\ exists a x, u_post p = [(a, VName x)])
+  /\ (exists p, u_hook p = false /\ urun (fu_unguarded p) <> urun p /\ fst (fst (urun p)) = true
+                /\ exists a b, u_post p = [(a, VAttr b)]).
+Proof. exact unconventional_unguarded_refuted. Qed.
+Print Assumptions T02k_unconventional_unguarded_refuted.
+
 End Cls.
